@@ -110,6 +110,8 @@ fn wrapper_history(ctx: &Ctx, t: &mut Tape<'_>, r: &mut Report) -> CheckResult {
     let mut q = start;
     let nops = 1 + t.idx(6);
     let (mut refused, mut exact_or_later_ok) = (0, false);
+    // true after a seek into the region of known finding F2: the object's state is undefined there
+    let mut lost = false;
     for i in 0..6 {
         // fixed 12-byte records
         let opk = t.byte();
@@ -121,6 +123,11 @@ fn wrapper_history(ctx: &Ctx, t: &mut Tape<'_>, r: &mut Report) -> CheckResult {
         let j = t.idx(bs);
         let _spare = t.u16();
         if i >= nops {
+            continue;
+        }
+        if lost && !(140..=179).contains(&opk) {
+            // only a seek can re-establish a defined position
+            r.excluded_known += 1;
             continue;
         }
         // bytes left before the limit (small here by construction)
@@ -177,9 +184,15 @@ fn wrapper_history(ctx: &Ctx, t: &mut Tape<'_>, r: &mut Report) -> CheckResult {
                     continue;
                 }
                 if f2 && ctx.known(SIG_F2) {
+                    // known finding: the call is made but nothing is concluded from it or from what follows,
+                    // until a later seek to a valid position re-establishes a defined state
                     r.excluded_known += 1;
                     r.label("excluded-F2");
-                    hist.push(format!("seek({p}) [excluded: known finding {SIG_F2}]"));
+                    let tys = seek_types_for(p);
+                    let nt = tys[(tyb as usize * tys.len()) >> 8];
+                    let _ = obj.try_seek(nt, p);
+                    lost = true;
+                    hist.push(format!("seek<{nt:?}>({p}) [known finding {SIG_F2}: state undefined until the next valid seek]"));
                     continue;
                 }
                 let tys = seek_types_for(p);
@@ -189,6 +202,8 @@ fn wrapper_history(ctx: &Ctx, t: &mut Tape<'_>, r: &mut Report) -> CheckResult {
                 if expect_ok {
                     ensure!(res.is_ok(), format!("C11/seek-rejected/{ty}"), "try_seek({p}) inside [0, end] failed [{}]", hist.join(" "));
                     q = Pos::from_bytes(p, bs);
+                    r.label_if(lost, "valid-seek-after-F2-region");
+                    lost = false;
                 } else if f2 {
                     // the position lies in keystream block 2^w-1, which does not exist: the call has to
                     // fail, or nothing may be produced from there
@@ -222,6 +237,10 @@ fn wrapper_history(ctx: &Ctx, t: &mut Tape<'_>, r: &mut Report) -> CheckResult {
                 }
             }
         }
+    }
+    if lost {
+        r.d(|| format!("{ty} key={} iv={} {}", tape::hex_short(&key), tape::hex_short(&iv), hist.join(" ")));
+        return Ok(());
     }
     // closing invariants: the position is still the model's, and one more byte is refused iff at the limit
     if let Some(qb) = q.bytes(bs) {
@@ -275,17 +294,24 @@ fn partial_on_core(ctx: &Ctx, t: &mut Tape<'_>, r: &mut Report) -> CheckResult {
     let data = tape::gen_bytes(t, n);
     r.label("partial-on-core");
     r.d(|| format!("{ty} key={} iv={} core at block 2^{w}-1-{k}: try_apply_keystream_partial({n} bytes)", tape::hex_short(&key), tape::hex_short(&iv)));
+    let q = Pos { blk: lim - k, off: 0 };
+    let ok = fits(q, n, bs, lim);
     if ctx.known(SIG_F3) {
-        r.excluded_known += 1;
-        r.label("excluded-F3");
-        return Ok(());
+        // known finding: cipher's provided method counts `len % bs (+1)` blocks instead of ceil(len / bs).
+        // Only the requests on which that formula gives the wrong verdict are excluded; everywhere else
+        // (right verdict) output, refusal and untouched buffers are checked as usual.
+        let upstream_blocks = if n % bs == 0 { n % bs } else { n % bs + 1 };
+        let upstream_refuses = (upstream_blocks as u128) > k;
+        if upstream_refuses == ok {
+            r.excluded_known += 1;
+            r.label("excluded-F3");
+            return Ok(());
+        }
     }
     let c = (suite.keyed)(&key);
     let model = KsModel::new(c.as_ref(), kind, &iv);
     let mut core = f.make_core(Ctor::New, &key, &iv).expect("harness: ctor");
     core.set_block_pos(lim - k).ok_or_else(|| Violation { sig: format!("C11/not-seekable/{ty}"), msg: "core no longer seekable".into() })?;
-    let q = Pos { blk: lim - k, off: 0 };
-    let ok = fits(q, n, bs, lim);
     let mut o = vec![0xC3u8; n];
     let res = core.try_apply_partial(&data, &mut o);
     r.nontrivial = !ok || n as u128 == k * bs as u128;
